@@ -6,7 +6,9 @@ package server
 
 import (
 	"fmt"
+	"runtime"
 	"sort"
+	"sync/atomic"
 	"testing"
 	"testing/synctest"
 
@@ -36,7 +38,7 @@ func c05Gen(t *rapid.T) c05Plan {
 		p.Cmds = append(p.Cmds, c)
 	}
 	if rapid.IntRange(0, 2).Draw(t, "race") > 0 {
-		p.RaceN = rapid.IntRange(2, 5).Draw(t, "race-n")
+		p.RaceN = rapid.IntRange(2, 6).Draw(t, "race-n")
 		p.RaceSpec = vfGenSpec(t, "race")
 	}
 	return p
@@ -97,19 +99,31 @@ func c05Run(t *testing.T, p c05Plan) (res vfResult) {
 					Targets: []string{vfTargetPool[i%len(vfTargetPool)]}}
 				cmds = append(cmds, c)
 			}
-			for _, c := range cmds {
+			// every racer is held just before it installs its service, then all are let go at once: their
+			// availability checks and installs contend as closely as the code allows
+			sc := newVFSched(w, nil, nil)
+			sc.spinPoint = "deploy.before-install"
+			var ended atomic.Int32
+			for i, c := range cmds {
 				c := c
-				pend = append(pend, w.goCmd(func() error {
-					cr := vfExec(w, r, c)
-					if cr.Panicked != "" {
-						panic(cr.Panicked)
-					}
-					return cr.Err
-				}))
+				pc := &vfPendingCmd{done: make(chan struct{})}
+				pend = append(pend, pc)
+				sc.spawn(fmt.Sprintf("racer%d", i), func() {
+					defer close(pc.done)
+					defer ended.Add(1)
+					pc.res = vfExec(w, r, c)
+				})
 			}
+			// wait (real time, bounded) until every racer spins at the barrier or has ended, then let them all go
+			for spins := 0; int(sc.spinArrived.Load()+ended.Load()) < len(cmds) && spins < 2000000; spins++ {
+				runtime.Gosched()
+			}
+			sc.spinGo.Store(true)
 			for _, pc := range pend {
 				<-pc.done
 			}
+			sc.stop()
+			vfCurSched.Store(nil)
 			synctest.Wait()
 			winners := []int{}
 			for i, pc := range pend {
